@@ -675,3 +675,22 @@ MUTANTS += [
      "edits": [("src/decoder.rs", "impl<R: Read> Base64Decoder<R> {\n    pub fn new(read: R)", "impl<R: Read> Base64Decoder<R> {\n    const QUANTUM_DECODED: usize = 3;\n\n    pub fn new(read: R)"),
                ("src/decoder.rs", "while self.buffer_size + 3 <= self.buffer.len() {", "while self.buffer.len() - self.buffer_size >= Self::QUANTUM_DECODED {")]},
 ]
+
+# ---- round M7: size-from-padding through position().map_or(..) (Option combinators in the evaluator; decision-table view for the interval
+# engine), cell-by-cell copy into the buffer
+_DSIZE_POS = "        chunk[2..]\n            .iter()\n            .position(|symbol| *symbol == b'=')\n            .map_or(3, |index| index + 1)\n"
+_COPY_OLD = "            self.buffer[self.buffer_size..self.buffer_size + out_size]\n                .copy_from_slice(&out[..out_size]);\n"
+_COPY_ZIP = "            self.buffer[self.buffer_size..]\n                .iter_mut()\n                .zip(&out[..out_size])\n                .for_each(|(dst, src)| *dst = *src);\n"
+MUTANTS += [
+    {"id": "C14-benign-decode-size-position-map-or", "prop": "C14", "benign": True, "edits": [("src/decoder.rs", _DSIZE_IF, _DSIZE_POS)]},
+    {"id": "C14-benign-decode-size-position-map-unwrap-or", "prop": "C14", "benign": True,
+     "edits": [("src/decoder.rs", _DSIZE_IF, "        chunk[2..].iter().position(|symbol| *symbol == b'=').map(|index| index + 1).unwrap_or(3)\n")]},
+    {"id": "C14-benign-decode-size-position-and-zip-copy", "prop": "C14", "benign": True,
+     "edits": [("src/decoder.rs", _DSIZE_IF, _DSIZE_POS), ("src/decoder.rs", _COPY_OLD, _COPY_ZIP)]},
+    {"id": "C14-decode-size-position-off-by-one", "prop": "C14", "expect": "C14/",
+     "edits": [("src/decoder.rs", _DSIZE_IF, _DSIZE_POS.replace("index + 1", "index + 2"))]},
+    {"id": "C14-decode-size-position-default-two", "prop": "C14", "expect": "C14/",
+     "edits": [("src/decoder.rs", _DSIZE_IF, _DSIZE_POS.replace("map_or(3,", "map_or(2,"))]},
+    {"id": "C14-decode-size-position-from-one", "prop": "C14", "expect": "C14/",
+     "edits": [("src/decoder.rs", _DSIZE_IF, _DSIZE_POS.replace("chunk[2..]", "chunk[1..]"))]},
+]
